@@ -20,7 +20,7 @@ import (
 //   * the loaders that can see a name: the global loader always; module M when the context's loader is M's loader or the
 //     dependency loader, and the name starts with M.
 //
-// classes: has-without-file, has-misses-file (HasEntry of a file loader against the derived paths), found-without-file, missing-with-file, case-sensitive, wrong-name, parsed-twice, absent-side-effect,
+// classes: has-without-file, has-misses-file, discover-mismatch (HasEntry / Discover of a file loader against the derived paths), found-without-file, missing-with-file, case-sensitive, wrong-name, parsed-twice, absent-side-effect,
 // error-not-located, definition-not-from-file, unstable, fault; misnamed-no-line and duplicate-redefine (known findings) are
 // failures of the `strict` op only.
 
@@ -431,6 +431,38 @@ func (o *oracle) hasExpected(key []string) (want bool, decided bool) {
 	return false, true
 }
 
+// discoverExpected: what Discover of a FILE loader must list (with the predicate "a type the static loader does not
+// know"): the derived names of all definition files below the loader and its parent, sorted, without repetition
+func (o *oracle) discoverExpected() (want []string, decided bool) {
+	var chain []string
+	switch {
+	case o.s.via == "g":
+		chain = []string{"g"}
+	case strings.HasPrefix(o.s.via, "m:"):
+		chain = []string{"g", o.s.via[2:]}
+	case strings.HasPrefix(o.s.via, "f:"):
+		chain = []string{o.s.via[2:]}
+	default:
+		return nil, false // the dependency loader lists its cache only
+	}
+	seen := map[string]bool{}
+	for i := range o.s.files {
+		p := o.paths[&o.s.files[i]]
+		for _, ld := range chain {
+			if loaderOf(p) == ld {
+				if k := o.indexKey(p); k != nil && !(len(k) == 1 && staticNames[k[0]]) {
+					seen[strings.Join(k, "::")] = true
+				}
+			}
+		}
+	}
+	for k := range seen {
+		want = append(want, k)
+	}
+	sort.Strings(want)
+	return want, true
+}
+
 var validPartRx = regexp.MustCompile(`\A[A-Za-z][0-9A-Za-z_]*\z`)
 
 var staticNames = map[string]bool{"integer": true, "string": true, "variant": true}
@@ -497,6 +529,13 @@ func judge(s spec, outs []outcome, total map[string]int, out string, strict bool
 				} else {
 					note("has-misses-file", fmt.Sprintf("HasEntry(%s) is false although a file sits at its derived path", l.name))
 				}
+			}
+			continue
+		}
+		if l.op == "discover" {
+			tags["discover"] = true
+			if want, ok := o.discoverExpected(); ok && strings.Join(want, ",") != strings.Join(oc.names, ",") {
+				note("discover-mismatch", fmt.Sprintf("Discover lists [%s], the definition files derive [%s]", strings.Join(oc.names, ","), strings.Join(want, ",")))
 			}
 			continue
 		}
